@@ -63,6 +63,8 @@ type obAgg struct {
 	Where     string
 	Instances int
 	Failed    []*Oblig
+	All       []*Oblig
+	Vacuous   bool
 	Solvers   map[string]int
 	Ms        int64
 	Expect    bool
@@ -115,6 +117,14 @@ func main() {
 		fmt.Fprintln(os.Stderr, "unknown command", cmd)
 		os.Exit(2)
 	}
+}
+
+// outBase: scratch directory for SMT scripts and replay files (GOVC_OUT lets the seed matrix run beside a normal check).
+func outBase(verif string) string {
+	if o := os.Getenv("GOVC_OUT"); o != "" {
+		return o
+	}
+	return filepath.Join(verif, "out")
 }
 
 func envOr(k, d string) string {
@@ -177,7 +187,7 @@ func runCheck(repo, verif, prop, tier, only string, verbose, writeEvidence bool)
 			eng.knownObligs[k.Oblig] = true
 		}
 	}
-	eng.outDir = filepath.Join(verif, "out", prop)
+	eng.outDir = filepath.Join(outBase(verif), prop)
 	os.RemoveAll(eng.outDir)
 	os.MkdirAll(eng.outDir, 0o755)
 	if tier == "thorough" {
@@ -239,6 +249,7 @@ func runCheck(repo, verif, prop, tier, only string, verbose, writeEvidence bool)
 			order = append(order, n)
 		}
 		a.Instances++
+		a.All = append(a.All, o)
 		a.Solvers[o.Res.Solver]++
 		a.Ms += o.Res.Ms
 		solverMs += o.Res.Ms
@@ -247,6 +258,8 @@ func runCheck(repo, verif, prop, tier, only string, verbose, writeEvidence bool)
 		}
 	}
 	sort.Strings(order)
+	coverMs := eng.coverAll(aggs, order)
+	solverMs += coverMs
 
 	known := loadKnown(filepath.Join(verif, "known_findings.txt"))
 	isKnown := func(name string) *knownFinding {
@@ -284,7 +297,7 @@ func runCheck(repo, verif, prop, tier, only string, verbose, writeEvidence bool)
 			fmt.Fprintln(os.Stderr, "note: "+u)
 		}
 	}
-	replayDir := filepath.Join(verif, "out", "replay")
+	replayDir := filepath.Join(outBase(verif), "replay")
 	os.MkdirAll(replayDir, 0o755)
 	if olds, _ := filepath.Glob(filepath.Join(replayDir, prop+"-*.json")); len(olds) > 0 {
 		for _, f := range olds {
@@ -299,8 +312,19 @@ func runCheck(repo, verif, prop, tier, only string, verbose, writeEvidence bool)
 		if a.Kind == "canary" && len(a.Failed) < a.Instances {
 			a.Failed = nil // some returning path is feasible and cannot prove false: not vacuous
 		}
-		if len(a.Failed) == 0 {
+		if len(a.Failed) == 0 && !a.Vacuous {
 			discharged++
+			continue
+		}
+		if a.Vacuous && len(a.Failed) == 0 {
+			// every path that reaches this obligation is infeasible under the contracts in force: the proof says nothing
+			violations++
+			exit = 1
+			rp := filepath.Join(replayDir, prop+"-"+sanitizeFile(n)+".json")
+			b, _ := json.MarshalIndent(map[string]any{"property": prop, "obligation": n, "kind": a.Kind, "clause": a.Src, "where": a.Where,
+				"status": "vacuous", "reason": "no feasible path reaches this obligation (path conditions contradict the assumed contracts): discharged vacuously, nothing is proved", "instances": a.Instances}, "", " ")
+			os.WriteFile(rp, b, 0o644)
+			fmt.Printf("VIOLATION property=%s replay=%s obligation=%s (%s) at %s status=vacuous-no-feasible-path no-failing-input-found\n", prop, rp, n, trunc(a.Src, 100), a.Where)
 			continue
 		}
 		if kf := isKnown(n); kf != nil {
@@ -374,6 +398,8 @@ func runCheck(repo, verif, prop, tier, only string, verbose, writeEvidence bool)
 			st := "ok"
 			if len(a.Failed) > 0 {
 				st = "FAIL(" + a.Failed[0].Res.Status + ")"
+			} else if a.Vacuous {
+				st = "VACUOUS"
 			}
 			fmt.Printf("  %-8s %-70s x%d %v %dms  %s\n", st, n, a.Instances, a.Solvers, a.Ms, trunc(a.Src, 80))
 		}
@@ -390,6 +416,58 @@ func runCheck(repo, verif, prop, tier, only string, verbose, writeEvidence bool)
 		writeEvidenceFile(eng, verif, prop, tier, seed, results, aggs, order, total, discharged, violations, knownHit, undecided, solverMs, wall, bounded)
 	}
 	return exit
+}
+
+// coverAll: for every obligation (by name) at least one path instance must be reachable, i.e. its path condition must
+// not be refutable. Instances are tried in order until one is not `unsat`; an obligation whose every instance sits on
+// an infeasible path is vacuous. Obligations decided syntactically (goal folded to true) carry no path script and are
+// skipped, as are canaries / vacuity checks (they are reachability checks themselves).
+func (e *Engine) coverAll(aggs map[string]*obAgg, order []string) int64 {
+	if os.Getenv("GOVC_NOCOVER") != "" {
+		return 0
+	}
+	var wg sync.WaitGroup
+	var ms int64
+	var mu sync.Mutex
+	sem := make(chan struct{}, 16)
+	for _, n := range order {
+		a := aggs[n]
+		if a.Expect || len(a.Failed) > 0 {
+			continue
+		}
+		switch a.Kind {
+		case "post", "assert", "pre", "chaninv", "inv.init", "inv.pres":
+			// clauses somebody wrote: a clause no feasible path reaches proves nothing
+		default:
+			// implicit obligations (frame, nopanic, lock, nilchan, nonblock, delivery) on a dead defensive branch claim nothing
+			continue
+		}
+		wg.Add(1)
+		sem <- struct{}{}
+		go func(a *obAgg) {
+			defer wg.Done()
+			defer func() { <-sem }()
+			tried := 0
+			for _, o := range a.All {
+				if o.Cover == nil {
+					continue
+				}
+				tried++
+				r, _ := dischargeOne(o.Cover(), e.outDir, o.Name()+".cover", 5)
+				mu.Lock()
+				ms += r.Ms
+				mu.Unlock()
+				if r.Status != "unsat" {
+					return
+				}
+			}
+			if tried > 0 {
+				a.Vacuous = true
+			}
+		}(a)
+	}
+	wg.Wait()
+	return ms
 }
 
 func trunc2(s string, n int) string {
